@@ -2838,6 +2838,56 @@ def rule_X8_writer_choice(F, R, crate_name):
     if verdict is False:
         R.violation('%s::main / X8 / output destination' % crate_name, 'X8', 'the formula must be written to the OUTPUT file when one is named and to standard output otherwise; the writer is %s' % _flow.show(term)[:160], t['span']['loc'])
 
+def rule_X8_reader_choice(F, R, crate_name, field='input'):
+    """the input is the INPUT file when one is named and standard input otherwise: any local of main whose value is, by provenance,
+    a choice on that option between `File::open(..)` and `stdin()` makes it in this direction (same reading as the writer clause: only a
+    choice that can be seen to be inverted is reported)"""
+    import flow as _flow
+    c = F.crate(crate_name) if crate_name != 'rsbdd' else F.bin()
+    t = c.ithir.get(crate_name + '::main') if c else None
+    if t is None:
+        R.violation('%s::main / X8 / anchor' % crate_name, 'UNDECIDABLE', 'main not found'); return
+    fl = _flow.Flow(c, max_depth=0)
+    def has(tm, names):
+        if isinstance(tm, tuple):
+            if tm and tm[0] == 'call' and any(tm[1].endswith(n_) for n_ in names): return True
+            return any(has(y, names) for y in tm)
+        return False
+    FILE = ('fs::File::open', 'fs::read_to_string', 'OpenOptions::open'); STD = ('io::stdin', 'io::stdio::stdin')
+    def is_field(tm): return isinstance(tm, tuple) and tm and tm[0] == 'field' and tm[2] == field
+    lets = []
+    _flow.scan(fl, t['body'], {}, lambda x: False, [])
+    cands = []
+    for b in walk(t['body']):
+        if b['k'] != 'Block': continue
+        for st in b['stmts']:
+            if st['k'] == 'Let' and st.get('init') is not None and any(x['k'] == 'Call' and (callee_name(x) or '').endswith(STD) for x in walk(st['init'])): cands.append(st)
+    wrong = []; n = 0
+    for st in cands:
+        found = []
+        _flow.scan(fl, t['body'], {}, lambda x: x is st['init'], found)
+        if not found: continue
+        term = fl.ev(st['init'], found[0][1])
+        verdict = None
+        if term[0] == 'optcase' and is_field(term[1]):
+            a_, b_ = term[3], term[4]
+            if has(a_, FILE) and not has(a_, STD) and has(b_, STD) and not has(b_, FILE): verdict = True
+            elif has(a_, STD) and not has(a_, FILE) and has(b_, FILE) and not has(b_, STD): verdict = False
+        elif term[0] == 'ite':
+            cnd, a_, b_ = term[1], term[2], term[3]
+            neg = False
+            while isinstance(cnd, tuple) and cnd and cnd[0] == 'un' and cnd[1] == 'Not': cnd = cnd[2]; neg = not neg
+            if isinstance(cnd, tuple) and cnd and cnd[0] == 'call' and cnd[1].split('::')[-1] in ('is_some', 'is_none') and len(cnd[2]) == 1 and is_field(cnd[2][0]):
+                some = (cnd[1].split('::')[-1] == 'is_some') != neg
+                file_then = has(a_, FILE) and not has(a_, STD) and has(b_, STD) and not has(b_, FILE)
+                std_then = has(a_, STD) and not has(a_, FILE) and has(b_, FILE) and not has(b_, STD)
+                if file_then or std_then: verdict = (file_then == some)
+        if verdict is not None: n += 1
+        if verdict is False: wrong.append((st, term))
+    R.count('X8:reader-choice'); R.obligation(not wrong, 'X8 reader choice ' + crate_name)
+    for st, term in wrong:
+        R.violation('%s::main / X8 / input source' % crate_name, 'X8', 'the input must be read from the file named by %s when one is given and from standard input otherwise; found %s' % (field.upper(), _flow.show(term)[:160]), st.get('loc'))
+
 def rule_X8_flush(F, R, crate_name):
     """what was written reaches the file, or the run fails: the buffered writer of main is flushed explicitly and the result of the flush
     is propagated (a BufWriter dropped without flush swallows the write error of a full disk or a closed pipe and the run exits 0)"""
